@@ -843,6 +843,19 @@ class Executor:
                 self.rec.end_op("raised")
                 raise
         r.trace = self.rec.end_op(r.outcome)
+        if r.outcome == "raised" and not r.exc_injected and isinstance(r.exc, np.linalg.LinAlgError):
+            # numerically singular system (blown-up input state)?  a brand-new integrator on a
+            # brand-new discretisation decides: if it is singular there too, the step is a discard
+            try:
+                d2 = self.world.make_disc(None)
+                q2 = deep_field_copy(r.f0)
+                q2.model = d2.model
+                with np.errstate(all="ignore"):
+                    integrator_class(r.cls)(self.world.mesh, d2).step(q2, dt)
+            except np.linalg.LinAlgError:
+                r.model_failed = True
+            except Exception:  # noqa
+                pass
         r.f_after = field_obs(f)
         r.held_after = {k: field_obs(v) for k, v in self.held.items()}
         if r.outcome == "returned":
